@@ -17,15 +17,30 @@ if [ "${1:-}" = "replay" ]; then
   exit $?
 fi
 tier="${1:-thorough}"
-if [ "$tier" = "thorough" ]; then W="${VERIF_MIRI_WORKLOADS:-4}"; N="${VERIF_MIRI_SEEDS:-64}"; else W="${VERIF_MIRI_WORKLOADS:-1}"; N="${VERIF_MIRI_SEEDS:-16}"; fi
+if [ "$tier" = "thorough" ]; then W="${VERIF_MIRI_WORKLOADS:-8}"; N="${VERIF_MIRI_SEEDS:-64}"; else W="${VERIF_MIRI_WORKLOADS:-2}"; N="${VERIF_MIRI_SEEDS:-8}"; fi
 start=$(date +%s)
 ok=0
+# build once, then run the workloads PAR at a time (each interprets N schedule seeds in parallel)
+(cd /verif/sim && cargo +nightly miri run --offline --bin verifsim_mt -- miri-scenario 2 > /verif/target/miri-build.log 2>&1) || { echo "{\"ran\": false, \"reason\": \"miri build or smoke run failed, see /verif/target/miri-build.log\"}"; exit 2; }
+PAR="${VERIF_MIRI_PAR:-2}"
+rm -f /verif/target/miri-[0-9]*.log /verif/target/miri-[0-9]*.code
+i=1
+while [ $i -le "$W" ]; do
+  pids=()
+  for j in $(seq 1 "$PAR"); do
+    [ $i -le "$W" ] || break
+    ws=$(( (SEED % 1000000) * 100 + i ))
+    ( run_miri "-Zmiri-many-seeds=0..$N" "$ws" > /verif/target/miri-$ws.log; echo $? > /verif/target/miri-$ws.code ) &
+    pids+=($!)
+    i=$((i+1))
+  done
+  wait "${pids[@]}"
+done
 for i in $(seq 1 "$W"); do
   ws=$(( (SEED % 1000000) * 100 + i ))
   log=/verif/target/miri-$ws.log
-  run_miri "-Zmiri-many-seeds=0..$N" "$ws" > "$log"
-  code=$?
-  if [ $code -ne 0 ]; then
+  code=$(cat /verif/target/miri-$ws.code 2>/dev/null || echo 99)
+  if [ "$code" -ne 0 ]; then
     failing=$(grep -o "FAILING SEED: [0-9]*" "$log" | grep -o "[0-9]*" | sort -n | tr '\n' ' ')
     if grep -qE "VIOLATION property=C15|Undefined Behavior|Data race detected|data race" "$log"; then
       first=$(echo $failing | cut -d' ' -f1)
@@ -33,11 +48,15 @@ for i in $(seq 1 "$W"); do
 import json,sys
 ws,first,failing,log=sys.argv[1:5]
 text=open(log).read()
-keep=[l for l in text.splitlines() if ("VIOLATION" in l or "error" in l.lower() or "race" in l.lower() or "FAILING" in l)][:40]
+keep=[]
+for l in text.splitlines():
+    if ("VIOLATION" in l or "error" in l.lower() or "race" in l.lower() or "FAILING" in l) and l not in keep:
+        keep.append(l[:600])
+keep=keep[:20]
 cls="data-race-or-ub" if ("Undefined Behavior" in text or "ata race" in text) else "concurrent!=sequential"
 json.dump({"property":"C15","engine":"miri","class":cls,"workload_seed":int(ws),"miri_seed":int(first or 0),
  "failing_miri_seeds":[int(x) for x in failing.split()],"replay":"tools/miri_engine.sh replay %s %s"%(ws,first),
- "signature":"miri|%s|ws=%s"%(cls,ws),"log_excerpt":keep,"minimised":False,
+ "signature":"miri|%s|family=%d"%(cls,int(ws)%4),"log_excerpt":keep,"minimised":False,
  "note":"Miri exposes no schedule to edit; the replay is (workload seed, -Zmiri-seed)"},
  open("/verif/replays/C15-miri.json","w"),indent=1)
 PY
